@@ -17,6 +17,11 @@
 //     resolution-message store, final HTLC outcomes, resolver reports, the witness
 //     cache, MarkChanFullyClosed): each is one write transaction on the *same*
 //     crashdb-wrapped backend, so it is a crash point and survives a restart;
+//   - the channel itself: type (anchors, script-enforced lease as initiator or not,
+//     simple taproot, taproot final, legacy tweakless), per-commitment output
+//     layout, HTLC sets, resolutions with well-formed placeholder scripts / keys /
+//     control blocks; for legacy channels the utxo nursery (durable store, acts
+//     while the node is up);
 //   - "ChainArbitrator": startNode() builds the arbitrator exactly as
 //     newActiveChannelArbitrator / loadPendingCloseChannels do (open channel: HTLC
 //     sets, Channel, chain events; pending close: IsPendingClose, CloseType,
@@ -61,6 +66,7 @@ import (
 
 	"github.com/btcsuite/btcd/btcec/v2"
 	"github.com/btcsuite/btcd/btcec/v2/ecdsa"
+	"github.com/btcsuite/btcd/btcec/v2/schnorr"
 	"github.com/btcsuite/btcd/chainhash/v2"
 	"github.com/btcsuite/btcd/txscript/v2"
 	"github.com/btcsuite/btcd/wire/v2"
@@ -75,6 +81,7 @@ import (
 	"github.com/lightningnetwork/lnd/htlcswitch/hop"
 	"github.com/lightningnetwork/lnd/input"
 	"github.com/lightningnetwork/lnd/invoices"
+	"github.com/lightningnetwork/lnd/keychain"
 	"github.com/lightningnetwork/lnd/kvdb"
 	"github.com/lightningnetwork/lnd/lntypes"
 	"github.com/lightningnetwork/lnd/lnwallet"
@@ -131,6 +138,32 @@ type c13Scn struct {
 	// and amounts), so the same output index means different HTLCs on different
 	// commitments.
 	Layout []int `json:"layout,omitempty"`
+	// Chan is the channel type: "" / "anchor" (anchors, zero-fee second-level HTLC
+	// transactions), "lease-init" / "lease-noninit" (script-enforced lease, thaw
+	// height c13Thaw, we are / are not the initiator), "taproot", "taproot-final",
+	// "legacy" (tweakless, no anchors: second-level HTLCs of our own commitment go
+	// through the utxo nursery).
+	Chan string `json:"chan,omitempty"`
+}
+
+const c13Thaw = 125 // lease expiry (absolute height)
+
+func (s *c13Scn) taproot() bool { return s.Chan == "taproot" || s.Chan == "taproot-final" }
+func (s *c13Scn) legacy() bool  { return s.Chan == "legacy" }
+
+func (s *c13Scn) chanType() channeldb.ChannelType {
+	anchors := channeldb.SingleFunderTweaklessBit | channeldb.AnchorOutputsBit | channeldb.ZeroHtlcTxFeeBit
+	switch s.Chan {
+	case "lease-init", "lease-noninit":
+		return anchors | channeldb.LeaseExpirationBit
+	case "taproot":
+		return anchors | channeldb.SimpleTaprootFeatureBit
+	case "taproot-final":
+		return anchors | channeldb.SimpleTaprootFeatureBit | channeldb.TaprootFinalBit
+	case "legacy":
+		return channeldb.SingleFunderTweaklessBit
+	}
+	return anchors
 }
 
 // confirmed is the commitment kind whose HTLC set is the confirmed one.
@@ -227,12 +260,17 @@ type c13Obs struct {
 	ChainTxs   []string            `json:"chain_txs"`
 	Published  []string            `json:"published"`
 	Offered    []string            `json:"offered"`
-	Preimages  []string            `json:"preimages_added"`
-	Notified   int                 `json:"resolved_notifications"`
-	Anomalies  []string            `json:"anomalies,omitempty"`
-	Blocks     int                 `json:"blocks"`
-	Height     int32               `json:"height"`
-	MaxRank    map[string]int      `json:"-"`
+	// OfferContent: per outpoint, every distinct content with which it was handed
+	// to the sweeper; Maturity: per (outpoint, type, stage) of the arbitrator's
+	// contract reports, every maturity height seen (in all normal forms).
+	OfferContent map[string][]string `json:"offer_content,omitempty"`
+	Maturity     map[string][]string `json:"report_maturity,omitempty"`
+	Preimages    []string            `json:"preimages_added"`
+	Notified     int                 `json:"resolved_notifications"`
+	Anomalies    []string            `json:"anomalies,omitempty"`
+	Blocks       int                 `json:"blocks"`
+	Height       int32               `json:"height"`
+	MaxRank      map[string]int      `json:"-"`
 }
 
 func c13SetAdd(m map[string][]string, k, v string) {
@@ -511,6 +549,26 @@ type c13World struct {
 	obs     c13Obs
 	verbose bool
 	peerSig input.Signature
+
+	ctrl     []byte           // a well-formed taproot control block
+	delayKey *btcec.PublicKey // our delay base point (taproot: tells our commitment from theirs)
+	payKey   *btcec.PublicKey // our payment base point
+	nursery  []c13Kid         // legacy channels: what was handed to the utxo nursery (durable)
+}
+
+// c13Kid is one HTLC of our own commitment handed to the utxo nursery.
+type c13Kid struct {
+	j  int
+	in bool
+}
+
+// pk is an output script of the kind the channel type uses.
+func (w *c13World) pk(tag string) []byte {
+	if w.scn.taproot() {
+		h := sha256.Sum256([]byte("c13-taproot-" + tag))
+		return append([]byte{txscript.OP_1, txscript.OP_DATA_32}, h[:]...)
+	}
+	return c13P2WSH(tag)
 }
 
 func (w *c13World) logf(format string, a ...any) {
@@ -574,6 +632,7 @@ func c13Script(tag string, first byte) []byte {
 }
 
 var c13Sig = make([]byte, 71)
+var c13Sig64 = make([]byte, 64)
 
 func (w *c13World) tag(tx *wire.MsgTx, t string) {
 	w.tags[tx.TxHash()] = t
@@ -615,13 +674,17 @@ func newC13World(scn c13Scn, verbose bool) (*c13World, error) {
 		lastSnap: map[string]int{},
 		verbose:  verbose,
 	}
-	w.obs = c13Obs{Scn: scn.Name, Msgs: map[string][]string{}, Finals: map[string][]string{}, MaxRank: map[string]int{}}
+	w.obs = c13Obs{Scn: scn.Name, Msgs: map[string][]string{}, Finals: map[string][]string{}, MaxRank: map[string]int{},
+		OfferContent: map[string][]string{}, Maturity: map[string][]string{}}
 	w.height.Store(c13H0)
 	w.funding = wire.OutPoint{Hash: c13Hash("c13-funding-tx"), Index: 0}
 
-	priv, _ := btcec.PrivKeyFromBytes(bytesOf(0x13, 32))
+	priv, pub := btcec.PrivKeyFromBytes(bytesOf(0x13, 32))
 	digest := sha256.Sum256([]byte("c13-peer-sig"))
 	w.peerSig = ecdsa.Sign(priv, digest[:])
+	w.ctrl = append([]byte{0xc0}, schnorr.SerializePubKey(pub)...)
+	_, w.delayKey = btcec.PrivKeyFromBytes(bytesOf(0x14, 32))
+	_, w.payKey = btcec.PrivKeyFromBytes(bytesOf(0x15, 32))
 
 	// The candidate spends of the funding output.
 	for i, k := range []string{"local", "remote", "pending", "revoked"} {
@@ -631,10 +694,10 @@ func newC13World(scn c13Scn, verbose bool) (*c13World, error) {
 		tx := wire.NewMsgTx(2)
 		tx.LockTime = uint32(500_000_000 + i)
 		tx.AddTxIn(&wire.TxIn{PreviousOutPoint: w.funding, Witness: wire.TxWitness{{}, c13Sig, c13Sig, {0x52}}})
-		tx.AddTxOut(&wire.TxOut{Value: 400_000, PkScript: c13P2WSH(k + "-to-local")})
-		tx.AddTxOut(&wire.TxOut{Value: 300_000, PkScript: c13P2WSH(k + "-to-remote")})
-		tx.AddTxOut(&wire.TxOut{Value: 330, PkScript: c13P2WSH(k + "-anchor-ours")})
-		tx.AddTxOut(&wire.TxOut{Value: 330, PkScript: c13P2WSH(k + "-anchor-theirs")})
+		tx.AddTxOut(&wire.TxOut{Value: 400_000, PkScript: w.pk(k + "-to-local")})
+		tx.AddTxOut(&wire.TxOut{Value: 300_000, PkScript: w.pk(k + "-to-remote")})
+		tx.AddTxOut(&wire.TxOut{Value: 330, PkScript: w.pk(k + "-anchor-ours")})
+		tx.AddTxOut(&wire.TxOut{Value: 330, PkScript: w.pk(k + "-anchor-theirs")})
 		// One output slot per HTLC of the scenario; which HTLC sits in which slot
 		// depends on the commitment (scn.slot). Dust and absent HTLCs leave a
 		// zero-value filler that nothing refers to.
@@ -644,7 +707,7 @@ func newC13World(scn c13Scn, verbose bool) (*c13World, error) {
 			if k != "revoked" && !h.Dust && scn.onCommit(h, k) {
 				v = int64(10_000 * (j + 1))
 			}
-			slots[scn.slot(k, j)] = &wire.TxOut{Value: v, PkScript: c13P2WSH(fmt.Sprintf("%s-htlc-%d", k, j))}
+			slots[scn.slot(k, j)] = &wire.TxOut{Value: v, PkScript: w.pk(fmt.Sprintf("%s-htlc-%d", k, j))}
 		}
 		for _, o := range slots {
 			tx.AddTxOut(o)
@@ -765,17 +828,29 @@ func (w *c13World) commitSet(conf HtlcSetKey) CommitSet {
 }
 
 func (w *c13World) signDesc(tag string, out *wire.TxOut, first byte) input.SignDescriptor {
-	return input.SignDescriptor{
+	sd := input.SignDescriptor{
 		WitnessScript: c13Script(tag, first),
 		Output:        out,
 		HashType:      txscript.SigHashAll,
 	}
+	if w.scn.taproot() {
+		sd.HashType = txscript.SigHashDefault
+		sd.SignMethod = input.TaprootScriptSpendSignMethod
+		sd.ControlBlock = append([]byte{}, w.ctrl...)
+	}
+	return sd
 }
 
 func (w *c13World) anchorRes(k string) *lnwallet.AnchorResolution {
 	tx := w.commits[k]
+	asd := w.signDesc(k+"-anchor", tx.TxOut[c13OutAnchor], txscript.OP_DATA_33)
+	if w.scn.taproot() {
+		asd.ControlBlock = nil
+		asd.SignMethod = input.TaprootKeySpendSignMethod
+		asd.TapTweak = bytesOf(0x77, 32)
+	}
 	return &lnwallet.AnchorResolution{
-		AnchorSignDescriptor: w.signDesc(k+"-anchor", tx.TxOut[c13OutAnchor], txscript.OP_DATA_33),
+		AnchorSignDescriptor: asd,
 		CommitAnchor:         wire.OutPoint{Hash: tx.TxHash(), Index: c13OutAnchor},
 		CommitFee:            1000,
 		CommitWeight:         1200,
@@ -785,16 +860,24 @@ func (w *c13World) anchorRes(k string) *lnwallet.AnchorResolution {
 func (w *c13World) commitRes(k string) *lnwallet.CommitOutputResolution {
 	tx := w.commits[k]
 	if k == "local" {
+		sd := w.signDesc(k+"-to-local", tx.TxOut[c13OutToLocal], txscript.OP_IF)
+		sd.KeyDesc.PubKey = w.delayKey
 		return &lnwallet.CommitOutputResolution{
 			SelfOutPoint:       wire.OutPoint{Hash: tx.TxHash(), Index: c13OutToLocal},
-			SelfOutputSignDesc: w.signDesc(k+"-to-local", tx.TxOut[c13OutToLocal], txscript.OP_IF),
+			SelfOutputSignDesc: sd,
 			MaturityDelay:      c13CsvLocal,
 		}
 	}
+	sd := w.signDesc(k+"-to-us", tx.TxOut[c13OutToThem], txscript.OP_DATA_33)
+	sd.KeyDesc.PubKey = w.payKey
+	delay := uint32(1)
+	if w.scn.legacy() {
+		delay = 0 // plain key output, no CSV
+	}
 	return &lnwallet.CommitOutputResolution{
 		SelfOutPoint:       wire.OutPoint{Hash: tx.TxHash(), Index: c13OutToThem},
-		SelfOutputSignDesc: w.signDesc(k+"-to-us", tx.TxOut[c13OutToThem], txscript.OP_DATA_33),
-		MaturityDelay:      1,
+		SelfOutputSignDesc: sd,
+		MaturityDelay:      delay,
 	}
 }
 
@@ -807,8 +890,17 @@ func (w *c13World) secondLevel(j int) *wire.MsgTx {
 	op := wire.OutPoint{Hash: commit.TxHash(), Index: uint32(slot)}
 	tx := wire.NewMsgTx(2)
 	script := c13Script(fmt.Sprintf("local-htlc-%d", j), txscript.OP_DUP)
-	tx.AddTxIn(&wire.TxIn{PreviousOutPoint: op, Witness: wire.TxWitness{{}, c13Sig, c13Sig, {}, script}, Sequence: 1})
-	tx.AddTxOut(&wire.TxOut{Value: commit.TxOut[slot].Value, PkScript: c13P2WSH(fmt.Sprintf("second-level-%d", j))})
+	wit := wire.TxWitness{{}, c13Sig, c13Sig, {}, script}
+	if w.scn.taproot() {
+		// timeout: <receiver sig> <sender sig> <script> <control block>;
+		// success: <sender sig> <receiver sig> <preimage> <script> <control block>
+		wit = wire.TxWitness{c13Sig64, c13Sig64, script, w.ctrl}
+		if h.In {
+			wit = wire.TxWitness{c13Sig64, c13Sig64, {}, script, w.ctrl}
+		}
+	}
+	tx.AddTxIn(&wire.TxIn{PreviousOutPoint: op, Witness: wit, Sequence: 1})
+	tx.AddTxOut(&wire.TxOut{Value: commit.TxOut[slot].Value, PkScript: w.pk(fmt.Sprintf("second-level-%d", j))})
 	if !h.In {
 		tx.LockTime = h.Exp
 	}
@@ -825,6 +917,10 @@ func (w *c13World) htlcResolutions(k string) *lnwallet.HtlcResolutions {
 		slot := c13OutHTLC0 + w.scn.slot(k, j)
 		op := wire.OutPoint{Hash: commit.TxHash(), Index: uint32(slot)}
 		htlcOut := commit.TxOut[slot]
+		var known [32]byte
+		if h.In && h.Pre == "known" {
+			known = h.preimage()
+		}
 		if k == "local" {
 			second := w.secondLevel(j)
 			sd := &input.SignDetails{
@@ -832,11 +928,22 @@ func (w *c13World) htlcResolutions(k string) *lnwallet.HtlcResolutions {
 				SigHashType: txscript.SigHashSingle | txscript.SigHashAnyOneCanPay,
 				PeerSig:     w.peerSig,
 			}
+			if w.scn.legacy() {
+				sd = nil
+			}
 			sweepDesc := w.signDesc(fmt.Sprintf("second-level-%d", j), second.TxOut[0], txscript.OP_IF)
 			claim := wire.OutPoint{Hash: second.TxHash(), Index: 0}
 			if h.In {
+				if h.Pre == "known" {
+					// lnwallet fills in a preimage it finds in the cache at close time.
+					i := 3
+					if w.scn.taproot() {
+						i = 2
+					}
+					second.TxIn[0].Witness[i] = known[:]
+				}
 				res.IncomingHTLCs = append(res.IncomingHTLCs, lnwallet.IncomingHtlcResolution{
-					SignedSuccessTx: second, SignDetails: sd, CsvDelay: c13CsvLocal,
+					Preimage: known, SignedSuccessTx: second, SignDetails: sd, CsvDelay: c13CsvLocal,
 					ClaimOutpoint: claim, SweepSignDesc: sweepDesc,
 				})
 			} else {
@@ -850,7 +957,7 @@ func (w *c13World) htlcResolutions(k string) *lnwallet.HtlcResolutions {
 		desc := w.signDesc(fmt.Sprintf("%s-htlc-%d", k, j), htlcOut, txscript.OP_DUP)
 		if h.In {
 			res.IncomingHTLCs = append(res.IncomingHTLCs, lnwallet.IncomingHtlcResolution{
-				ClaimOutpoint: op, SweepSignDesc: desc, CsvDelay: 1,
+				Preimage: known, ClaimOutpoint: op, SweepSignDesc: desc, CsvDelay: 1,
 			})
 		} else {
 			res.OutgoingHTLCs = append(res.OutgoingHTLCs, lnwallet.OutgoingHtlcResolution{
@@ -1045,17 +1152,38 @@ func (w *c13World) mine(h int32) []*c13MemTx {
 // witnessFor shapes the witness of a spend of op the way the real script paths do.
 func (w *c13World) witnessFor(op wire.OutPoint, pre fn.Option[lntypes.Preimage], script []byte, byRemote bool) wire.TxWitness {
 	r, ok := w.roles[op]
+	tap := w.scn.taproot()
 	if !ok || r.kind != "htlc" {
+		if tap {
+			return wire.TxWitness{c13Sig64}
+		}
 		return wire.TxWitness{c13Sig, script}
 	}
 	h := w.scn.HTLCs[r.htlc]
 	p := h.preimage()
 	pre.WhenSome(func(x lntypes.Preimage) { p = x })
+	local := r.commit == "local"
+	if tap {
+		switch {
+		case !h.In && local && byRemote:
+			return wire.TxWitness{c13Sig64, p[:], script, w.ctrl} // remote claims with the preimage
+		case !h.In && local:
+			return wire.TxWitness{c13Sig64, c13Sig64, script, w.ctrl} // our second-level timeout
+		case !h.In && byRemote:
+			return wire.TxWitness{c13Sig64, c13Sig64, p[:], script, w.ctrl} // their second-level success
+		case !h.In:
+			return wire.TxWitness{c13Sig64, script, w.ctrl} // our direct timeout
+		case local:
+			return wire.TxWitness{c13Sig64, c13Sig64, p[:], script, w.ctrl} // our second-level success
+		default:
+			return wire.TxWitness{c13Sig64, p[:], script, w.ctrl} // our direct preimage spend
+		}
+	}
 	switch {
 	// Offered HTLC on our commitment.
-	case !h.In && r.commit == "local" && byRemote:
+	case !h.In && local && byRemote:
 		return wire.TxWitness{c13Sig, p[:], script} // remote claims with the preimage
-	case !h.In && r.commit == "local":
+	case !h.In && local:
 		return wire.TxWitness{{}, c13Sig, c13Sig, {}, script} // our second-level timeout
 	// Offered HTLC on their commitment.
 	case !h.In && byRemote:
@@ -1063,11 +1191,40 @@ func (w *c13World) witnessFor(op wire.OutPoint, pre fn.Option[lntypes.Preimage],
 	case !h.In:
 		return wire.TxWitness{c13Sig, {}, script} // our direct timeout
 	// Received HTLC on our commitment: our second-level success.
-	case r.commit == "local":
+	case local:
 		return wire.TxWitness{{}, c13Sig, c13Sig, p[:], script}
 	// Received HTLC on their commitment: our direct preimage spend.
 	default:
 		return wire.TxWitness{c13Sig, p[:], script}
+	}
+}
+
+// nurseryBeat is the utxo nursery's reaction to block h (legacy channels): it
+// broadcasts the timeout transaction of an incubated offered HTLC once its CLTV
+// allows and sweeps the second-level output once its CSV allows. Its store is
+// durable; like the sweeper it only acts while the node is up.
+func (w *c13World) nurseryBeat(h int32) {
+	for _, kid := range w.nursery {
+		second := w.secondLevel(kid.j)
+		w.tag(second, "second-level("+w.scn.HTLCs[kid.j].name()+")")
+		htlcOp := second.TxIn[0].PreviousOutPoint
+		if !kid.in {
+			_, ex := w.exists(htlcOp)
+			_, sp := w.spent[htlcOp]
+			if ex && !sp && !w.inMempool(htlcOp) && int32(second.LockTime)+1 <= h+1 {
+				w.addMempool(second, h+1, true, false)
+			}
+		}
+		claim := wire.OutPoint{Hash: second.TxHash(), Index: 0}
+		confH, ex := w.exists(claim)
+		if _, sp := w.spent[claim]; !ex || sp || w.inMempool(claim) || confH+c13CsvLocal > h+1 {
+			continue
+		}
+		tx := wire.NewMsgTx(2)
+		tx.AddTxIn(&wire.TxIn{PreviousOutPoint: claim, Witness: wire.TxWitness{c13Sig, {}, c13Script("second-level", txscript.OP_IF)}})
+		tx.AddTxOut(&wire.TxOut{Value: second.TxOut[0].Value, PkScript: c13P2WSH("wallet-" + w.opName(claim))})
+		w.tag(tx, "nursery-sweep("+w.opName(claim)+")")
+		w.addMempool(tx, h+1, true, false)
 	}
 }
 
@@ -1079,6 +1236,7 @@ func (w *c13World) sweeperBeat(h int32) {
 	if n == nil || n.dead.Load() {
 		return
 	}
+	w.nurseryBeat(h)
 	ops := make([]wire.OutPoint, 0, len(n.sweeps))
 	for op := range n.sweeps {
 		ops = append(ops, op)
@@ -1099,6 +1257,17 @@ func (w *c13World) sweeperBeat(h int32) {
 		}
 		if mature > h+1 {
 			continue
+		}
+		if r, ok := w.roles[op]; ok && r.kind == "htlc" && w.scn.HTLCs[r.htlc].In {
+			// The network only accepts a success spend that reveals the HTLC's
+			// preimage.
+			good := w.scn.HTLCs[r.htlc].preimage()
+			valid := true
+			s.inp.Preimage().WhenSome(func(p lntypes.Preimage) { valid = p == good })
+			if !valid {
+				w.logf("  sweeper: spend of %s carries a preimage that does not open the HTLC: rejected by the network", w.opName(op))
+				continue
+			}
 		}
 		tx := wire.NewMsgTx(2)
 		script := s.inp.SignDesc().WitnessScript
@@ -1334,13 +1503,45 @@ func (s *c13Sweeper) result(sp *c13Spend) sweep.Result {
 	return r
 }
 
-func (s *c13Sweeper) SweepInput(inp input.Input, _ sweep.Params) (chan sweep.Result, error) {
+// c13InputContent renders everything a resolver decides about an input it hands
+// to the sweeper (not its height hint, which is a search bound).
+func c13InputContent(w *c13World, inp input.Input, p sweep.Params) string {
+	sd := inp.SignDesc()
+	lock := "none"
+	if lt, ok := inp.RequiredLockTime(); ok {
+		lock = fmt.Sprint(lt)
+	}
+	out := "nil"
+	if sd.Output != nil {
+		h := sha256.Sum256(sd.Output.PkScript)
+		out = fmt.Sprintf("%d/%x", sd.Output.Value, h[:4])
+	}
+	req := "none"
+	if ro := inp.RequiredTxOut(); ro != nil {
+		h := sha256.Sum256(ro.PkScript)
+		req = fmt.Sprintf("%d/%x", ro.Value, h[:4])
+	}
+	ws := sha256.Sum256(sd.WitnessScript)
+	c := fmt.Sprintf("type=%v locktime=%s csv=%d signdesc{out=%s script=%d/%x ctrlblock=%d taptweak=%d hashtype=%d method=%d tweak=%v key=%v} required_out=%s preimage=%v",
+		inp.WitnessType(), lock, inp.BlocksToMaturity(), out, len(sd.WitnessScript), ws[:4], len(sd.ControlBlock), len(sd.TapTweak),
+		sd.HashType, sd.SignMethod, sd.SingleTweak != nil, sd.KeyDesc.PubKey != nil, req, inp.Preimage().IsSome())
+	if r, ok := w.roles[inp.OutPoint()]; ok && r.kind == "anchor" {
+		// Anchors are offered with situation-dependent CPFP parameters.
+		return c
+	}
+	dl := "none"
+	p.DeadlineHeight.WhenSome(func(d int32) { dl = fmt.Sprint(d) })
+	return c + fmt.Sprintf(" budget=%d deadline=%s", p.Budget, dl)
+}
+
+func (s *c13Sweeper) SweepInput(inp input.Input, params sweep.Params) (chan sweep.Result, error) {
 	n := s.n
 	n.enter()
 	defer n.leave()
 	op := inp.OutPoint()
 	w := n.w
 	w.obs.Offered = c13ListAdd(w.obs.Offered, fmt.Sprintf("%s/%v", w.opName(op), inp.WitnessType()))
+	w.obs.OfferContent[w.opName(op)] = c13ListAdd(w.obs.OfferContent[w.opName(op)], c13InputContent(w, inp, params))
 	rc := make(chan sweep.Result, 1)
 	n.ident[c13Goid()] = w.opName(op)
 	if sp, ok := w.spent[op]; ok {
@@ -1546,12 +1747,42 @@ func (w *c13World) config(n *c13Node) ChannelArbitratorConfig {
 			return n.write("Switch.DeliverResolutionMsg", evs...)
 		},
 		Notifier: &c13Notifier{n: n},
-		IncubateOutputs: func(wire.OutPoint, fn.Option[lnwallet.OutgoingHtlcResolution],
-			fn.Option[lnwallet.IncomingHtlcResolution], uint32, fn.Option[int32], ...IncubateOption) error {
+		IncubateOutputs: func(_ wire.OutPoint, out fn.Option[lnwallet.OutgoingHtlcResolution],
+			in fn.Option[lnwallet.IncomingHtlcResolution], _ uint32, _ fn.Option[int32], _ ...IncubateOption) error {
 
 			n.enter()
-			defer n.leave()
-			w.anomaly("IncubateOutputs-called(legacy nursery path not modelled)")
+			if !w.scn.legacy() {
+				w.anomaly("IncubateOutputs-called-on-a-non-legacy-channel")
+				n.leave()
+				return nil
+			}
+			var evs []c13Event
+			find := func(tx *wire.MsgTx, incoming bool) {
+				if tx == nil {
+					w.anomaly("IncubateOutputs-without-second-level-tx")
+					return
+				}
+				r, ok := w.roles[tx.TxIn[0].PreviousOutPoint]
+				if !ok || r.kind != "htlc" || w.scn.HTLCs[r.htlc].In != incoming {
+					w.anomaly("IncubateOutputs-for-unknown-htlc-output")
+					return
+				}
+				evs = append(evs, c13Event{K: "incubate", Idx: uint64(r.htlc), Settle: incoming})
+			}
+			out.WhenSome(func(r lnwallet.OutgoingHtlcResolution) { find(r.SignedTimeoutTx, false) })
+			in.WhenSome(func(r lnwallet.IncomingHtlcResolution) { find(r.SignedSuccessTx, true) })
+			n.leave()
+			if len(evs) == 0 {
+				return nil
+			}
+			if err := n.write("NurseryStore.Incubate", evs...); err != nil {
+				return err
+			}
+			n.enter()
+			for _, ev := range evs {
+				w.incubate(int(ev.Idx), ev.Settle)
+			}
+			n.leave()
 			return nil
 		},
 		PreimageDB:     &c13Beacon{n: n},
@@ -1621,11 +1852,17 @@ func (w *c13World) config(n *c13Node) ChannelArbitratorConfig {
 		FetchHistoricalChannel: func() (*chanstate.OpenChannel, error) {
 			n.enter()
 			defer n.leave()
-			return &chanstate.OpenChannel{
-				ChanType:        channeldb.SingleFunderTweaklessBit | channeldb.AnchorOutputsBit | channeldb.ZeroHtlcTxFeeBit,
+			st := &chanstate.OpenChannel{
+				ChanType:        w.scn.chanType(),
 				FundingOutpoint: w.funding,
-				IsInitiator:     true,
-			}, nil
+				IsInitiator:     w.scn.Chan != "lease-noninit",
+			}
+			st.LocalChanCfg.DelayBasePoint = keychain.KeyDescriptor{PubKey: w.delayKey}
+			st.LocalChanCfg.PaymentBasePoint = keychain.KeyDescriptor{PubKey: w.payKey}
+			if st.ChanType.HasLeaseExpiration() {
+				st.ThawHeight = c13Thaw
+			}
+			return st, nil
 		},
 		FindOutgoingHTLCDeadline: func(h channeldb.HTLC) fn.Option[int32] {
 			n.enter()
@@ -1635,6 +1872,15 @@ func (w *c13World) config(n *c13Node) ChannelArbitratorConfig {
 			return fn.None[int32]()
 		},
 	}
+}
+
+func (w *c13World) incubate(j int, in bool) {
+	for _, k := range w.nursery {
+		if k.j == j {
+			return
+		}
+	}
+	w.nursery = append(w.nursery, c13Kid{j: j, in: in})
 }
 
 // c13RegistryImpl: no invoices; every received HTLC is a forward (the onion
@@ -1691,9 +1937,53 @@ func c13Incubating(v reflect.Value, depth int) bool {
 	return false
 }
 
+// sampleReports records the maturity heights of the arbitrator's contract reports
+// (what PendingChannels shows). A height is kept in every normal form it has -
+// absolute, relative to the confirmation of the commitment, relative to the spend
+// of the HTLC output - because a resumed run may legitimately be a block late.
+func (w *c13World) sampleReports() {
+	n := w.node
+	if n == nil || n.arb == nil || n.dead.Load() || w.crashed.Load() {
+		return
+	}
+	w.mu.Lock()
+	idle := n.idle
+	w.mu.Unlock()
+	if idle {
+		return
+	}
+	commitH := int32(-1)
+	if sp := w.spent[w.funding]; sp != nil {
+		commitH = sp.height
+	}
+	for _, r := range n.arb.Report() {
+		key := fmt.Sprintf("%s|type=%d|stage=%d", w.opName(r.Outpoint), r.Type, r.Stage)
+		m := int32(r.MaturityHeight)
+		if m == 0 {
+			continue // not determined yet (set by Launch)
+		}
+		forms := []string{fmt.Sprintf("abs:%d", m)}
+		if commitH >= 0 && m >= commitH {
+			forms = append(forms, fmt.Sprintf("commit+%d", m-commitH))
+		}
+		for j, h := range w.scn.HTLCs {
+			if h.Dust || !w.scn.onCommit(h, "local") {
+				continue
+			}
+			second := w.secondLevel(j)
+			htlcOp := second.TxIn[0].PreviousOutPoint
+			if sp := w.spent[htlcOp]; sp != nil && (r.Outpoint == htlcOp || r.Outpoint.Hash == second.TxHash()) && m >= sp.height {
+				forms = append(forms, fmt.Sprintf("htlcspend+%d", m-sp.height))
+			}
+		}
+		w.obs.Maturity[key] = c13ListAdd(w.obs.Maturity[key], strings.Join(forms, ","))
+	}
+}
+
 // snapshot reads the unresolved-contract bucket and checks that no contract's
 // persisted stage went backwards since the previous look.
 func (w *c13World) snapshot() []string {
+	w.sampleReports()
 	un, err := w.rawLog.FetchUnresolvedContracts()
 	if err != nil {
 		return []string{"error:" + err.Error()}
@@ -1751,6 +2041,9 @@ func (w *c13World) startNode() {
 	w.node = n
 	// The witness cache is durable.
 	for _, ev := range d.events {
+		if ev.K == "incubate" {
+			w.incubate(int(ev.Idx), ev.Settle)
+		}
 		if ev.K == "preimage" {
 			if b, err := hex.DecodeString(ev.Pre); err == nil {
 				if p, err := lntypes.MakePreimage(b); err == nil {
